@@ -73,28 +73,42 @@ PieceKV(p) == LET i == IndexOf(p, "=", 1) IN
 \* ----------------------------------------------------------- response side
 \* sameSite: 0 disabled, 1 default ("SameSite"), 2 Lax, 3 Strict, 4 None
 \* expire: "none", "t1" (some date), "del" (CookieExpireDelete); maxAge: 0 = not set, < 0 = delete now
-Build(c) == [c EXCEPT !.secure = c.secure \/ c.sameSite = 4 \/ c.partitioned,
-                      \* SetPath normalises the path, which percent-decodes it
-                      !.path = IF c.partitioned THEN <<"/">> ELSE PathDec(c.path)]
+\* The ORDER of the setter calls matters: SetSameSite(None) and SetPartitioned(true) also call
+\* SetSecure(true) / SetPath("/") at the moment they are called.
+\*   c.early = FALSE: strings, expiry, Secure, HttpOnly first, then SameSite, then Partitioned
+\*   c.early = TRUE : SameSite and Partitioned first, then the strings (SetPath only for a
+\*                    non-empty path), expiry, Secure, HttpOnly -- the explicit values win
+\* SetPath normalises the path, which percent-decodes it.
+Build(c) ==
+  IF c.early
+  THEN [c EXCEPT !.path = IF c.path # <<>> THEN PathDec(c.path)
+                          ELSE IF c.partitioned THEN <<"/">> ELSE <<>>]
+  ELSE [c EXCEPT !.secure = c.secure \/ c.sameSite = 4 \/ c.partitioned,
+                 !.path = IF c.partitioned THEN <<"/">> ELSE PathDec(c.path)]
 
 Neutral(c) == [c EXCEPT !.key = San(c.key), !.value = San(c.value), !.domain = San(c.domain),
                         !.path = San(c.path)]
 
 Num(n) == ToString(n)
-Render(c) ==
-  (IF c.key # <<>> THEN c.key \o <<"=">> ELSE <<>>) \o c.value
-  \o (IF c.maxAge # 0 THEN <<";", " ", "max-age", "=", Num(IF c.maxAge < 0 THEN 0 ELSE c.maxAge)>>
-      ELSE IF c.expire # "none" THEN <<";", " ", "expires", "=", "DATE:" \o c.expire>> ELSE <<>>)
-  \o (IF c.domain # <<>> THEN <<";", " ", "domain", "=">> \o c.domain ELSE <<>>)
-  \o (IF c.path # <<>> THEN <<";", " ", "path", "=">> \o c.path ELSE <<>>)
-  \o (IF c.httpOnly THEN <<";", " ", "HttpOnly">> ELSE <<>>)
-  \o (IF c.secure THEN <<";", " ", "secure">> ELSE <<>>)
+\* the attribute chunks in the order AppendBytes writes them
+Chunks(c) ==
+  (IF c.maxAge # 0 THEN << <<";", " ", "max-age", "=", Num(IF c.maxAge < 0 THEN 0 ELSE c.maxAge)>> >>
+   ELSE IF c.expire # "none" THEN << <<";", " ", "expires", "=", "DATE:" \o c.expire>> >> ELSE <<>>)
+  \o (IF c.domain # <<>> THEN << <<";", " ", "domain", "=">> \o c.domain >> ELSE <<>>)
+  \o (IF c.path # <<>> THEN << <<";", " ", "path", "=">> \o c.path >> ELSE <<>>)
+  \o (IF c.httpOnly THEN << <<";", " ", "HttpOnly">> >> ELSE <<>>)
+  \o (IF c.secure THEN << <<";", " ", "secure">> >> ELSE <<>>)
   \o (CASE c.sameSite = 0 -> <<>>
-        [] c.sameSite = 1 -> <<";", " ", "SameSite">>
-        [] c.sameSite = 2 -> <<";", " ", "SameSite", "=", "Lax">>
-        [] c.sameSite = 3 -> <<";", " ", "SameSite", "=", "Strict">>
-        [] c.sameSite = 4 -> <<";", " ", "SameSite", "=", "None">>)
-  \o (IF c.partitioned THEN <<";", " ", "Partitioned">> ELSE <<>>)
+        [] c.sameSite = 1 -> << <<";", " ", "SameSite">> >>
+        [] c.sameSite = 2 -> << <<";", " ", "SameSite", "=", "Lax">> >>
+        [] c.sameSite = 3 -> << <<";", " ", "SameSite", "=", "Strict">> >>
+        [] c.sameSite = 4 -> << <<";", " ", "SameSite", "=", "None">> >>)
+  \o (IF c.partitioned THEN << <<";", " ", "Partitioned">> >> ELSE <<>>)
+NameValue(c) == (IF c.key # <<>> THEN c.key \o <<"=">> ELSE <<>>) \o c.value
+Render(c) == NameValue(c) \o FlattenSeq(Chunks(c))
+\* the same cookie with its attributes in the opposite order (RFC 6265: the order of the
+\* attributes carries no meaning, a parser must read the same cookie)
+RenderRev(c) == NameValue(c) \o FlattenSeq(Reverse(Chunks(c)))
 
 Reject == [reject |-> TRUE]
 Blank == [reject |-> FALSE, key |-> <<>>, value |-> <<>>, domain |-> <<>>, path |-> <<>>, expire |-> "none",
@@ -154,10 +168,12 @@ RespOctets(c) == /\ c.key # <<>> /\ AllOf(c.key, IsKeyOctet) /\ AllOf(c.value, I
                  /\ (c.path = <<>> \/ (c.path[1] = "/" /\ AllOf(Tail(c.path), IsPlain)))
 
 RespSeen(c) == ParseSC(Render(Neutral(Build(c))))
+RespSeenRev(c) == ParseSC(RenderRev(Neutral(Build(c))))
 
 RespOK(c) ==
   LET r == RespSeen(c)  b == Build(c) IN
   /\ ~r.reject => GotAttrs(r) = WantAttrs(c)
+  /\ RespSeenRev(c) = r                          \* attribute order is irrelevant
   /\ RespOctets(c) => /\ ~r.reject
                       /\ r.key = b.key /\ r.value = b.value /\ r.domain = b.domain /\ r.path = b.path
 
@@ -167,9 +183,11 @@ HasK(j, k) == \E i \in 1..Len(j) : j[i].k = k
 FirstK(j, k) == CHOOSE i \in 1..Len(j) : j[i].k = k /\ \A n \in 1..(i - 1) : j[n].k # k
 JarSet(j, k, v) == IF HasK(j, k) THEN [j EXCEPT ![FirstK(j, k)] = KV(k, v)] ELSE Append(j, KV(k, v))
 RECURSIVE JarOf(_, _)
-\* ops: sequence of <<k, v>>; keys are compared after CR/LF neutralisation
+\* ops: sequence of <<k, v>>; SetCookie(k, v) sets THE cookie named k: setting the same name
+\* again replaces its value in place, however the name is spelled on the wire (names are
+\* compared as they are stored, i.e. neutralised)
 JarOf(ops, j) == IF ops = <<>> THEN j
-                 ELSE JarOf(Tail(ops), JarSet(j, SanCRLF(ops[1][1]), SanCRLF(ops[1][2])))
+                 ELSE JarOf(Tail(ops), JarSet(j, San(ops[1][1]), San(ops[1][2])))
 
 RECURSIVE ReqRenderFrom(_, _)
 ReqRenderFrom(j, i) ==
@@ -186,7 +204,7 @@ ReqParse(s) ==
        IN SelectSeq([i \in 1..Len(kvs) |-> KV(kvs[i][1], kvs[i][2])],
                     LAMBDA e : (e.k # <<>> \/ e.v # <<>>) /\ ValidValue(e.v))
 
-NeutralJar(j) == [i \in 1..Len(j) |-> KV(San(j[i].k), San(j[i].v))]
+NeutralJar(j) == j      \* (the jar already holds neutralised names and values)
 ReqSeen(ops) == ReqParse(ReqRender(NeutralJar(JarOf(ops, <<>>))))
 \* a cookie made of cookie-octets: name=value with a token name, or a NAMELESS cookie
 \* (rendered as the bare value, which then must not contain '=')
